@@ -94,6 +94,8 @@ pub fn selftest() -> i32 {
         Box::new(super::scen_discover::Discover { faults: true }),
         Box::new(super::scen_cacherace::CacheRace),
         Box::new(super::scen_cli::Cli),
+        Box::new(super::scen_chaos::Burst),
+        Box::new(super::scen_chaos::ChaosCli),
     ];
     let n: u64 = std::env::var("PLSIM_SELFTEST_SEEDS").ok().and_then(|s| s.parse().ok()).unwrap_or(120);
     let mut total = 0u64;
